@@ -146,9 +146,9 @@ func (r result) String() string { b, _ := json.Marshal(r); return string(b) }
 
 type observation struct {
 	Fields     []field
-	latest     map[int]result // per DID index: Resolve(id, AllowDeactivated)
-	latestNil  map[int]result // per DID index: Resolve(id, nil)
-	rawSources []string       // of every result with > 1 source, in order of collection
+	latest     map[int]result  // per DID index: Resolve(id, AllowDeactivated)
+	latestNil  map[int]result  // per DID index: Resolve(id, nil)
+	rawSources []string        // of every result with > 1 source, in order of collection
 	docs       map[string]bool // every document serialisation returned by any read
 	// byHashMismatch: Resolve by the hash of a stored version returned another document or hash (observation)
 	byHashMismatch string
@@ -470,7 +470,9 @@ func memberDiffs(ref, got []field, canonical bool, keep func(name string) bool) 
 	return out
 }
 
-func (x execution) fields() []field { return append(append([]field{}, x.obs.Fields...), x.reopened.Fields...) }
+func (x execution) fields() []field {
+	return append(append([]field{}, x.obs.Fields...), x.reopened.Fields...)
+}
 
 // unionDocClasses folds several "document|a+b" classes into one naming the union of members.
 func foldClasses(cl map[string][]string) map[string][]string {
@@ -685,7 +687,7 @@ type replayCase struct {
 	Scenario scenario   `json:"scenario"`
 	Order    []int      `json:"order"`
 	RefOrder []int      `json:"reference_order"`
-	Differs  any      `json:"differs,omitempty"`
+	Differs  any        `json:"differs,omitempty"`
 }
 
 func TestVerifC10(t *testing.T) {
